@@ -6,6 +6,7 @@ broadcast use {vstd::std_specs::hash::group_hash_axioms, axh::axiom_uuid_key_mod
 //@include prelude/ring.rs
 //@include regions/crypto_impl.rs
 //@include regions/server_plain_types.rs
+//@include prelude/uuidtext.rs
 //@include prelude/reqwest.rs
 //@include regions/httpsrv_impl.rs
 //@include prelude/tail.rs
